@@ -421,8 +421,14 @@ def run_history(desc):
                 elif how == 0 and len(tl) >= 2:  # array with permuted / other letters
                     wrong = build.array(U, {"letters": tl[::-1], "mode": "coded", "tag": "y"}, cls=fd.StockArray)
                     call = lambda: fd.SimpleFlowDrivenStock(dims=tds, inflow=wrong)
-                elif how == 1 and len(tl) >= 2:  # time not first
-                    call = lambda: fd.SimpleFlowDrivenStock(dims=build.dimset(U, tl[::-1]))
+                elif how == 1 and len(tl) >= 2:  # time not first - for every stock class, model given as class or instance
+                    rev = build.dimset(U, tl[::-1])
+                    call = [
+                        lambda: fd.SimpleFlowDrivenStock(dims=rev),
+                        lambda: fd.InflowDrivenDSM(dims=rev, lifetime_model=fd.NormalLifetime),
+                        lambda: fd.StockDrivenDSM(dims=rev, lifetime_model=fd.FixedLifetime),
+                        lambda: fd.InflowDrivenDSM(dims=rev, lifetime_model=fd.NormalLifetime(dims=rev, mean=2.0, std=1.0)),
+                    ][s["k"] % 4]
                 elif how == 2 and len(tl) >= 2:  # lifetime model over other dims
                     lm = fd.NormalLifetime(dims=build.dimset(U, tl[:1]), mean=2.0, std=1.0)
                     call = lambda: fd.InflowDrivenDSM(dims=tds, lifetime_model=lm)
